@@ -3,7 +3,8 @@ LEVEL = "proof"
 LEAN_MODULES = ["CifModel.Props.C09", "CifModel.Lemmas.NamesLink", "CifModel.Props.ReviewC09"]
 REQUIRED = ["CifModel.C09_idempotent", "CifModel.C09_canon_invariant", "CifModel.C09_normal_form_is_caseless_match",
             "CifModel.C09_norm_of_valid", "CifModel.C09_match_iff", "CifModel.C09_invalid_refused",
-            "CifModel.C09_table_keys", "CifModel.C09_table_keys_case_significant", "CifModel.C09_validity",
+            "CifModel.C09_table_keys", "CifModel.C09_table_enumeration", "CifModel.C09_packet_names", "CifModel.C09_map_invariant",
+            "CifModel.C09_code_table", "CifModel.C09_table_keys_case_significant", "CifModel.C09_validity",
             "CifModel.Lemmas.NamesLink.limits_link", "CifModel.Lemmas.NamesLink.spec_limits_link",
             "CifModel.Lemmas.NamesLink.consts_link", "CifModel.Lemmas.NamesLink.bmpDisallowed_link"]
 GEN = ["ErrCodes", "NamesConsts"]
@@ -27,7 +28,18 @@ ASSUMPTIONS = [
     "ICU calls do not fail (allocation / internal errors are not modelled)",
     "strings are NUL-free lists of UTF-16 code units",
 ]
-PARTIAL = []
+PARTIAL = [
+    "the theorems about tables and packets are about the map of map.c at association-list level (Model/Normalize.lean `Entries`, tied by "
+    "family `norm map`); that uthash enumerates in insertion order, and key / key_orig memory ownership, are correspondence-only "
+    "(families norm, val; C16 / C19 for the heap level)",
+    "C09_code_table is stated against the entry-point models of other groups (Model/Store.lean, Model/Value.lean): that the real entry "
+    "points compute the validity verdict with cif_is_valid_name / cif_has_disallowed_chars (i.e. `apiName`, `itemNorm`, `tableNorm` are what "
+    "the C passes on) is observed by family `valid api` (create block / frame / item / loop / packet / packet item / table key), not proved",
+    "found / duplicate for blocks, frames and items is proved on the list of present normal forms (`createNamed` / `findNamed`: SQL "
+    "uniqueness of the normalised name column); its composition with the store model's histories is property C04's",
+    "ICU itself: `Laws` are hypotheses (tested on all code points); byte-level behaviour of unorm_normalize / u_strFoldCase buffers "
+    "(U_BUFFER_OVERFLOW_ERROR retry loops of cif_unicode_normalize / cif_fold_case) is not modelled - correspondence only",
+]
 LEVEL_TEXT = ("Proof relative to stated ICU laws: cif_normalize idempotent and invariant under canonical equivalence, equal normal "
               "forms = Unicode canonical caseless match, found/duplicate iff normal forms coincide, invalid names refused with the "
               "entry point's code, table keys matched by NFC only — for all UnicodeOps satisfying Laws; validity = the CIF rules on code points for EVERY string of 16-bit units "
